@@ -1,6 +1,7 @@
 package pipeline
 
 import (
+	"encoding/json"
 	"fmt"
 	"os"
 	"sort"
@@ -69,6 +70,72 @@ func TestPipelineSmoke(t *testing.T) {
 	if os.Getenv("PIPELINE_SMOKE_EX") != "" {
 		for _, k := range keys {
 			t.Logf("=========== %s\n%s", k, example[k])
+		}
+	}
+}
+
+// TestPipelineCorpus (development aid, PIPELINE_CORPUS=1): the fixed corpus variants through CheckGo.
+func TestPipelineCorpus(t *testing.T) {
+	if os.Getenv("PIPELINE_CORPUS") == "" {
+		t.Skip("set PIPELINE_CORPUS")
+	}
+	for _, v := range []struct {
+		name  string
+		roots []string
+		f     Flags
+	}{
+		{"vtu", []string{"vt.yang", "vt-udef.yang"}, Flags{FakeRoot: true, FakeRootName: "device", SimpleUnions: true, YangPresence: true, Getters: true, Append: true, Delete: true, Rename: true, LeafGetters: true, PopulateDefaults: true}},
+		{"vocc", []string{"voc.yang", "voc-aug.yang"}, Flags{Compress: true, FakeRoot: true, SimpleUnions: true, IgnoreShadowSchemaPaths: true, PathStructs: true, Getters: true}},
+		{"voco", []string{"voc.yang", "voc-aug.yang"}, Flags{Compress: true, PreferOperationalState: true, FakeRoot: true, SimpleUnions: true}},
+		{"vocu-nofr", []string{"voc.yang", "voc-aug.yang"}, Flags{SimpleUnions: true}},
+		{"vocx", []string{"voc.yang", "voc-aug.yang"}, Flags{Compress: true, ExcludeState: true, FakeRoot: true}},
+	} {
+		c := CheckGo(Input{Name: "corpus:" + v.name, Dir: CorpusDir(), Roots: v.roots}, v.f)
+		t.Logf("%s: stage=%s harness=%q build=%v vet=%v run=%v wall=%v", v.name, c.Stage, c.HarnessError, c.BuildFailed, c.VetFailed, c.RunFailed, c.Wall)
+		if c.Stage != "done" {
+			t.Logf("%s", c.Describe(""))
+			continue
+		}
+		t.Logf("  c26 stats=%v violations=%d", c.Verdict.C26.Stats, len(c.Verdict.C26.Violations))
+		for _, x := range c.Verdict.C26.Violations {
+			t.Logf("    C26: %s", x)
+		}
+		t.Logf("  c27 stats=%v violations=%d", c.Verdict.C27.Stats, len(c.Verdict.C27.Violations))
+		for _, x := range c.Verdict.C27.Violations {
+			t.Logf("    C27: %s", x)
+		}
+	}
+}
+
+// TestPipelineDir (development aid): PIPELINE_DIR=<yang dir> PIPELINE_ROOTS=a.yang,b.yang [PIPELINE_FLAGS='{"FakeRoot":true}'].
+func TestPipelineDir(t *testing.T) {
+	dir := os.Getenv("PIPELINE_DIR")
+	if dir == "" {
+		t.Skip("set PIPELINE_DIR")
+	}
+	var f Flags
+	if s := os.Getenv("PIPELINE_FLAGS"); s != "" {
+		if err := json.Unmarshal([]byte(s), &f); err != nil {
+			t.Fatal(err)
+		}
+	}
+	c := CheckGo(Input{Name: dir, Dir: dir, Roots: strings.Split(os.Getenv("PIPELINE_ROOTS"), ",")}, f)
+	t.Logf("stage=%s harness=%q gen-failed=%v build=%v vet=%v run=%v wall=%v", c.Stage, c.HarnessError, c.GenFailed(), c.BuildFailed, c.VetFailed, c.RunFailed, c.Wall)
+	if c.Stage != "done" || c.VetFailed {
+		t.Logf("%s", c.Describe(""))
+	}
+	if c.Verdict != nil {
+		for _, x := range c.Verdict.C26.Violations {
+			t.Logf("    C26: %s", x)
+		}
+		for _, x := range c.Verdict.C27.Violations {
+			t.Logf("    C27: %s", x)
+		}
+		t.Logf("c26=%v c27=%v", c.Verdict.C26.Stats, c.Verdict.C27.Stats)
+	}
+	if os.Getenv("PIPELINE_DUMP") != "" {
+		for n, s := range c.Files {
+			t.Logf("---- %s\n%s", n, s)
 		}
 	}
 }
